@@ -414,8 +414,17 @@ impl Proj {
             if !s.imp.is_empty() {
                 b += &format!(" | {}", esc_list(&s.imp));
             }
-            if !s.oo.is_empty() {
-                b += &format!(" || {}", esc_list(&s.oo));
+            // an order-only entry that expands to nothing (an unset variable): an input named "", which nothing
+            // produces and which orders nothing -- but it must stay in its own section
+            let empty_oo = st % 11 == 7 && !s.val.is_empty() && !s.phony;
+            if !s.oo.is_empty() || empty_oo {
+                b += " ||";
+                if !s.oo.is_empty() {
+                    b += &format!(" {}", esc_list(&s.oo));
+                }
+                if empty_oo {
+                    b += " $nothing_zz";
+                }
             }
             if !s.val.is_empty() {
                 b += &format!(" |@ {}", esc_list(&s.val));
